@@ -22,21 +22,25 @@ def HP (α : Type) := Prog (Except Err α)
 
 namespace HP
 
-def ok {α} (a : α) : HP α := Prog.ret (.ok a)
-def fail {α} (e : Err) : HP α := Prog.ret (.error e)
+/-- view a handler program as the plain program it is -/
+def toProg {α} (x : HP α) : Prog (Except Err α) := x
+def mk {α} (p : Prog (Except Err α)) : HP α := p
+
+def ok {α} (a : α) : HP α := mk (Prog.ret (.ok a))
+def fail {α} (e : Err) : HP α := mk (Prog.ret (.error e))
 /-- leave with the error computed by an error-path program -/
-def failWith {α} (p : Prog Err) : HP α := Prog.bind p (fun e => Prog.ret (.error e))
+def failWith {α} (p : Prog Err) : HP α := mk (Prog.bind p (fun e => Prog.ret (.error e)))
 def bind {α β} (x : HP α) (f : α → HP β) : HP β :=
-  Prog.bind x (fun r => match r with | .ok a => f a | .error e => Prog.ret (.error e))
+  mk (Prog.bind x.toProg (fun r => match r with | .ok a => (f a).toProg | .error e => Prog.ret (.error e)))
 instance : Monad HP where
   pure := ok
   bind := bind
-def lift {α} (p : Prog α) : HP α := Prog.bind p (fun a => Prog.ret (.ok a))
+def lift {α} (p : Prog α) : HP α := mk (Prog.bind p (fun a => Prog.ret (.ok a)))
 /-- `if !c { return e }` -/
 def guard (c : Bool) (e : Err) : HP Unit := if c then ok () else fail e
 /-- close a handler: the caller sees the value or the RFC error -/
 def run (x : HP Out) : Prog Out :=
-  Prog.bind x (fun r => match r with | .ok o => Prog.ret o | .error e => Prog.ret (.err e))
+  Prog.bind x.toProg (fun r => match r with | .ok o => Prog.ret o | .error e => Prog.ret (.err e))
 
 end HP
 
@@ -49,26 +53,26 @@ def Res.errKind : Res → Option Err
 
 /-- a lookup that must yield a request; anything else runs `other` and leaves -/
 def expectReq (c : Call) (other : Res → Prog Err) : HP Req :=
-  Prog.call c (fun r => match r with
-    | .req x => HP.ok x
-    | r => HP.failWith (other r))
+  HP.mk (Prog.call c (fun r => match r with
+    | .req x => (HP.ok x).toProg
+    | r => (HP.failWith (other r)).toProg))
 
 /-- a create call that must yield the fresh signature -/
 def expectNat (c : Call) (other : Res → Prog Err) : HP Nat :=
-  Prog.call c (fun r => match r with
-    | .nat n => HP.ok n
-    | r => HP.failWith (other r))
+  HP.mk (Prog.call c (fun r => match r with
+    | .nat n => (HP.ok n).toProg
+    | r => (HP.failWith (other r)).toProg))
 
 /-- a call that must not fail (`err == nil`) -/
 def expectOk (c : Call) (other : Err → Prog Err) : HP Unit :=
-  Prog.call c (fun r => match r.errKind with
-    | none => HP.ok ()
-    | some e => HP.failWith (other e))
+  HP.mk (Prog.call c (fun r => match r.errKind with
+    | none => (HP.ok ()).toProg
+    | some e => (HP.failWith (other e)).toProg))
 
 def expectClient (c : Call) (e : Err) : HP Client :=
-  Prog.call c (fun r => match r with
-    | .client x => HP.ok x
-    | _ => HP.fail e)
+  HP.mk (Prog.call c (fun r => match r with
+    | .client x => (HP.ok x).toProg
+    | _ => (HP.fail e).toProg))
 
 /-- a call whose result is inspected by the handler itself -/
 def callH (c : Call) : HP Res := HP.lift (call c)
